@@ -75,8 +75,10 @@ def run_cfg(args):
     us = uses(cfg)
     t = Tally()
     t.traces = []
+    can_stream = cfg["f"] in ("Madgwick", "Mahony", "EKF", "UKF", "AQUA", "ROLEQ", "Fourati")
     for pi, pattern in enumerate(patterns):
         u = TRUTHS[pi % len(TRUTHS)]
+        stream = can_stream and pi % 2 == 1
         clean, faulted = history(u, pattern, seed, cfg)
         kinds = sorted(set(pattern) - {"ok"})
         visible = [fk for fk in kinds if any(us[w] and zeroes(fk, w) for w in ("acc", "mag", "gyr"))]
@@ -89,8 +91,35 @@ def run_cfg(args):
             t.fail("C13|%s|reference-run-raises-%s" % (cname, type(e).__name__), dict(case, err=str(e)[:200]))
             continue
         events = []
+        route = "batch"
         try:
-            out = np.asarray(FL.batch(cfg, *faulted, extra=extra)[1])
+            if stream:
+                # sample-by-sample through update(): the caller keeps feeding whatever the filter returned
+                route = "stream"
+                obj = FL.create(cfg, extra=extra)
+                q = ref[0].copy()
+                rows = [q]
+                g_, a_, m_ = faulted
+                refused_at = None
+                for k_ in range(1, len(g_)):
+                    try:
+                        q = FL.step(cfg, obj, q, g_[k_], a_[k_], m_[k_])
+                    except ValueError:
+                        refused_at = k_
+                        break
+                    rows.append(np.array(q, dtype=float))
+                t.calls += 1
+                emitted = np.array(rows)
+                if not (np.all(np.isfinite(emitted)) and np.max(np.abs(np.linalg.norm(emitted, axis=1) - 1.0)) <= 1e-9):
+                    bad_row = int(np.argmax(~np.isfinite(emitted).all(axis=1) | (np.abs(np.linalg.norm(emitted, axis=1) - 1.0) > 1e-9)))
+                    upto = set(pattern[:bad_row // SLOT + 1]) - {"ok"}
+                    t.fail("C13|%s|%s|poisoned" % (cname, "+".join(sorted(upto)) or "none"), dict(case, route="stream", row=bad_row, got=emitted[bad_row]))
+                    continue
+                if refused_at is not None:
+                    raise ValueError("update refused sample %d" % refused_at)
+                out = emitted
+            else:
+                out = np.asarray(FL.batch(cfg, *faulted, extra=extra)[1])
         except ValueError as e:
             # allowed: the run refuses the faulted sample -- if the history has a fault this configuration can see
             if not visible:
@@ -119,7 +148,7 @@ def run_cfg(args):
             events.append({"outcome": "Ok", "close": bool(close)})
         if poisoned_at is not None:
             upto = set(pattern[:poisoned_at + 1]) - {"ok"}
-            t.fail("C13|%s|%s|poisoned" % (cname, "+".join(sorted(upto)) or "none"), dict(case, slot=poisoned_at, rows=out[poisoned_at * SLOT:poisoned_at * SLOT + 3]))
+            t.fail("C13|%s|%s|poisoned" % (cname, "+".join(sorted(upto)) or "none"), dict(case, route=route, slot=poisoned_at, rows=out[poisoned_at * SLOT:poisoned_at * SLOT + 3]))
             continue
         # recovery, decided here as well (TLC decides it again on the trace)
         since = RECOVER
